@@ -214,22 +214,37 @@ BRIDGE_TB = {
     "EdsProofs.BridgeSlowStart": "getRollingUpdateStartTime and calculateMaxCreation are TRANSLATED from rollingupdate.go (Generated/DecSlowStart.lean) and proved equal to the model (EdsProofs/BridgeSlowStart.lean, src_*)",
     "EdsProofs.BridgeConds": "the condition-list helpers of both conditions packages (GetIndexForConditionType, Get…StatusCondition, IsConditionTrue, Update…StatusCondition, UpdateErrorCondition: the model's findCond / isCondTrue / updateCond), retrieveReplicaSetStatus (ersRole), isCanaryActive, and the pod helpers of pkg/controller/utils/pod (IsPodReady, IsPodAvailable, HighestRestartCount, MostRecentRestart, CannotStart, PendingCreate, IsCannotStartReason, convertReasonToEDSStatusReason, HasPodSchedulerIssue, affinity.GetNodeNameFromAffinity) are TRANSLATED, range loops included (Generated/DecConds.lean), and proved equal to the model applied to the harness's canonical form of the Go records (EdsProofs/BridgeConds.lean, src_*; Go.canon* in EdsModel/GoPrelude.lean restate harness/canon). HighestRestartCount / MostRecentRestart are bridged under Go.lastStateWF (a lastState that is set is set to terminated): without it the Go functions dereference nil (finding_*_panics)",
 }
+BRIDGE_TB["EdsProofs.BridgeStatus"] = (
+    "manageCanaryPodFailures (strategy/canary.go: the per-pod loop with HighestRestartCount / MostRecentRestart / CannotStart / PendingCreate, "
+    "the slow-start gate, the auto-fail / auto-pause switch, the four condition updates and the canary-failed status), manageStatus, "
+    "manageCanaryStatusConditions, clearCanaryAnnotations (controllers/extendeddaemonset/controller.go), sortPodByNodeName.Less, "
+    "edsNodeByCreationTimestampAndPhase.Less, utils.MergeResult, utils.ContainsString, manageUnscheduledPodNodes, compareSpecTemplateMD5Hash and "
+    "BoolToCondition are TRANSLATED (Generated/DecStatus.lean, calling the translated functions of DecConds / DecCanary) and proved equal to the model "
+    "(EdsProofs/BridgeStatus.lean, src_*): src_manageCanaryPodFailures = the model's manageCanaryPodFailures on the canonical form of the pods "
+    "(PodsRel), panics included, under Go.lastStateWF for the container statuses, result.FailedReason = \"\" and result.NewStatus a non-nil object "
+    "distinct from params.NewStatus (what manageCanaryStatus passes: a fresh Result with a deep copy). Not translated: utils.RemoveString (it appends "
+    "into the backing array of the slice it ranges over) and manageCanaryStatus itself (iteration over Go maps keyed by pointers) -- these stay tied "
+    "by the correspondence streams")
 BRIDGES = {
     "C05": ["EdsProofs.BridgeCanary"],
     "C08": ["EdsProofs.BridgeCanary"],
-    "C14": ["EdsProofs.BridgeCanary", "EdsProofs.BridgeConds"],
+    "C14": ["EdsProofs.BridgeCanary", "EdsProofs.BridgeConds", "EdsProofs.BridgeStatus"],
     "C04": ["EdsProofs.BridgeConds"],
-    "C06": ["EdsProofs.BridgeConds"],
+    "C06": ["EdsProofs.BridgeConds", "EdsProofs.BridgeStatus"],
     "C19": ["EdsProofs.BridgeCanary"],
-    "C07": ["EdsProofs.BridgeCleanup", "EdsProofs.BridgeCanary"],
+    "C01": ["EdsProofs.BridgeStatus"],
+    "C18": ["EdsProofs.BridgeStatus"],
+    "C07": ["EdsProofs.BridgeCleanup", "EdsProofs.BridgeCanary", "EdsProofs.BridgeStatus"],
     "C13": ["EdsProofs.BridgeCleanup"],
     "C16": ["EdsProofs.BridgeDefaults", "EdsProofs.BridgeSlowStart"],
     "C09": ["EdsProofs.BridgeSlowStart"],
 }
 SRC_THEOREMS = {
+    "C06": [("EdsProps.C06s", "C06_src_")],
+    "C14": [("EdsProps.C14s", "C14_src_")],
     "C05": [("EdsProps.C05s", "C05_src_")],
     "C08": [("EdsProps.C08s", "C08_src_")],
-    "C07": [("EdsProps.C07s", "C07_src_")],
+    "C07": [("EdsProps.C07s", "C07_src_"), ("EdsProps.C14s", "re:^(C07_src_|C14_src_failed)")],
     "C13": [("EdsProps.C07s", "C07_src_")],
     "C16": [("EdsProps.C16s", "C16_src_")],
     "C09": [("EdsProps.C09s", "C09_src_")],
@@ -285,6 +300,9 @@ PROPS["C11"]["level_text"] += " L3 (EdsProps/L3): every history invariant (one r
 PROPS["C09"]["level_text"] += " C09_spacing_history (EdsProps/C09c): over any run of syncs of one replica set with the status carried forward, any two write-issuing syncs are at least reconcileFrequency apart; through a second-truncating store the spacing is > freq - 1 s (tight)."
 PROPS["C13"]["level_text"] += " L3 history (EdsProps/L3): L3_one_per_template, L3_names_nodup, L3_never_deletes_in_use by induction over arbitrary operation sequences of the cluster machine."
 PROPS["C05"]["level_text"] += " L3_promotion_history: in any run of the cluster machine, whenever a reconcile switches status.activeReplicaSet from an existing own replica set to another, the promotion rule held in the pre-state. Code level (EdsProps/C05s): C05_src_only_if etc. about the TRANSLATED selectCurrentReplicaSet."
+PROPS["C06"]["level_text"] += " Code level (EdsProps/C06s, about the TRANSLATED manageCanaryPodFailures of Generated/DecStatus.lean via Bridge.src_manageCanaryPodFailures): C06_src_model / C06_src_panics_iff (the translated function returns exactly when the model does, with the model's flags, reasons and status), C06_src_failed_iff, C06_src_failed_sticky, C06_src_paused_iff, C06_src_conditions_written."
+PROPS["C14"]["level_text"] += " Code level (EdsProps/C14s, about the TRANSLATED manageStatus / manageCanaryStatusConditions): C14_src_state_total (no panic on non-nil arguments, one of the six documented states), C14_src_failed_clears_canary, C14_src_canary_block, C14_src_canary_conditions (Canary-Failed is true iff failed, Canary-Paused iff paused and not failed)."
+PROPS["C07"]["level_text"] += " Code level (EdsProps/C14s): C14_src_failed_clears_canary (the TRANSLATED manageStatus clears status.canary and reports Canary Failed for a failed canary, also with nil replica set / daemonset pointers), C07_src_annotations_cleared (the TRANSLATED clearCanaryAnnotations removes exactly the three canary annotations and reports whether one was there)."
 PROPS["C01"]["level_text"] += " L3_one_per_node: at most one live daemon pod per node along runs of BOTH controllers with the ExtendedDaemonSet object evolving."
 PROPS["C12"]["level_text"] += " L3_foreign_pods_untouched: along any run (with or without dropped writes) no op but the kubelet changes a pod the ExtendedDaemonSet does not own."
 for _p in PROPS:
